@@ -1,5 +1,5 @@
 """property id -> units and reporting metadata (single source for MANIFEST.json)"""
-from units import specificity, best, fragments, static_list, hashing, vptrs
+from units import specificity, best, fragments, static_list, hashing, vptrs, resolve, generator
 
 A_TABLES = ('compiler::build_dispatch_tables (grouping of classes by applicability mask, strides, recursion order) '
             'and assign_slots / assign_tree_slots / assign_lattice_slots are NOT under contract '
@@ -71,11 +71,19 @@ PROPS = {
         'assumptions': [],
     },
     'C01': {
-        'units': [specificity.jobs, best.jobs, fragments.jobs, hashing.jobs, vptrs.jobs],
+        'units': [specificity.jobs, best.jobs, fragments.jobs, hashing.jobs, vptrs.jobs, resolve.jobs],
         'level': 'proof',
         'technique': 'TBD', 'level_text': 'TBD', 'level_note': 'TBD',
         'design_ref': 'DESIGN.md section 6 C01',
         'unverified': [A_TABLES, A_AUGMENT],
+        'assumptions': [],
+    },
+    'C12': {
+        'units': [generator.jobs, resolve.jobs],
+        'level': 'proof',
+        'technique': 'TBD', 'level_text': 'TBD', 'level_note': 'TBD',
+        'design_ref': 'DESIGN.md section 6 C12',
+        'unverified': [],
         'assumptions': [],
     },
 }
